@@ -19,8 +19,12 @@ class Hang(BaseException):
     pass
 
 
+_armed = [False]
+
+
 def _alarm(*a):
-    raise Hang()
+    if _armed[0]:                  # the timer repeats: an alarm swallowed somewhere is followed by another
+        raise Hang()
 
 
 def mutate(rng, frames):
@@ -107,16 +111,19 @@ def run_stream(stream, guard=4.0):
     res = dict(hang=False, bad_exc=None)
     try:
         t0 = time.time()
-        signal.setitimer(signal.ITIMER_REAL, guard)
+        _armed[0] = True
+        signal.setitimer(signal.ITIMER_REAL, guard, 1.0)
         try:
             calls, replies, err, closed = c02.run_session([stream] if stream else [], ADDR)
         except Hang:
+            _armed[0] = False
             res['hang'] = True
             calls, replies, err, closed = [], [], 'HANG', False
         except BaseException as e:                       # not an Exception: would take more than this connection down
             res['bad_exc'] = type(e).__name__
             calls, replies, err, closed = [], [], type(e).__name__, False
         finally:
+            _armed[0] = False
             signal.setitimer(signal.ITIMER_REAL, 0)
         res.update(seconds=time.time() - t0, replies=replies, err=err, closed=closed, processed=len(calls))
         key = '%s_%d' % (ADDR[0].replace('.', '_'), ADDR[1])
@@ -124,13 +131,16 @@ def run_stream(stream, guard=4.0):
         main.connections.pop(key, None)
         res['image'] = im.image()
         # a second session from the same peer must be served
-        signal.setitimer(signal.ITIMER_REAL, guard)
+        _armed[0] = True
+        signal.setitimer(signal.ITIMER_REAL, guard, 1.0)
         try:
             rb_calls, rb_replies, rb_err, _ = c02.run_session(readback_frames(), ADDR)
             res['second_ok'] = rb_err is None and len(rb_replies) == 3
         except Hang:
+            _armed[0] = False
             res['second_ok'] = False
         finally:
+            _armed[0] = False
             signal.setitimer(signal.ITIMER_REAL, 0)
         main.connections.pop(key, None)
     finally:
